@@ -103,7 +103,12 @@ def gen(rng, tier, n):
         elif r < 0.6:
             g = graph(rng, fields)
             ginsts = [gv.represent(rng, gv.gen_json(rng, 2)) for _ in range(3)]
-            ops.append({"op": "resolve-desc", "args": {"desc": g, "loader": rng.choice(["", "", "error", "nil", "self", "wrong", "node", "validate-defaults"]),
+            ld = rng.choice(["", "", "error", "nil", "self", "wrong", "node", "validate-defaults"])
+            if ld in ("self", "node"):
+                # the Loader hands back objects of the graph itself: a reference then recurses without descending into the instance
+                # (outside the proviso, and the model does not cover these loaders so it cannot filter): Resolve only
+                ginsts = []
+            ops.append({"op": "resolve-desc", "args": {"desc": g, "loader": ld,
                                                         "base": rng.choice(["", "", "http://x.test/r.json", "::", "http://x.test/r#frag", "rel/ative"]),
                                                         "ginsts": ginsts}, "meta": {"graph": True}})
         elif r < 0.64:
